@@ -231,9 +231,14 @@ ALLOWED_AXIOMS = set([
 ])
 
 
-def proof_gate(prop_id, proof_files):
-    """Returns dict(ok, failures[list], obligations, discharged, theorems, assumptions, log)."""
+def proof_gate(prop_id, proof_files, extra_allowed=None):
+    """Returns dict(ok, failures[list], obligations, discharged, theorems, assumptions, log).
+    extra_allowed: {theorem name: iterable of std-lib axiom names}: an explicit per-theorem
+    allow-list on top of ALLOWED_AXIOMS (used by C20 for the theorems about the classical
+    reals); every listed theorem must exist; what is granted is recorded in the evidence."""
+    extra_allowed = {k: sorted(set(v)) for k, v in (extra_allowed or {}).items()}
     res = dict(ok=True, failures=[], obligations=0, discharged=0, theorems=[], assumptions={},
+               extra_allowed_axioms=extra_allowed,
                checker_cmd="coq_makefile -f _CoqProject -o Makefile.coq && make -f Makefile.coq -j16 props/%s.vo "
                            "(coqc 8.16.1, full .vo of the property file and everything it depends on) ; coqc props/%s.v (Print Assumptions)" % (prop_id, prop_id))
     ok, log = build_coq(target="props/%s.vo" % prop_id)
@@ -296,9 +301,13 @@ def proof_gate(prop_id, proof_files):
             ax = re.findall(r"^(\S+)\s*:", b[len("Axioms:"):], flags=re.M)
             res["assumptions"][name] = ax
             for a in ax:
-                if a not in ALLOWED_AXIOMS:
+                if a not in ALLOWED_AXIOMS and a not in extra_allowed.get(name, ()):
                     res["ok"] = False
                     res["failures"].append("theorem %s depends on axiom %s" % (name, a))
+    for name in extra_allowed:
+        if name not in printed or name not in thms:
+            res["ok"] = False
+            res["failures"].append("theorem %s (listed with an axiom allow-list) is missing from props/%s.v" % (name, prop_id))
     return res
 
 
@@ -564,8 +573,8 @@ class Check:
         else:
             self.monitor_failures.append(None)
 
-    def run_proof_gate(self, proof_files):
-        self.proof = proof_gate(self.id, proof_files)
+    def run_proof_gate(self, proof_files, extra_allowed=None):
+        self.proof = proof_gate(self.id, proof_files, extra_allowed=extra_allowed)
         if not self.proof["ok"]:
             self.proof_failures += self.proof["failures"]
         return self.proof["ok"]
@@ -624,6 +633,8 @@ class Check:
             cov["checker_cmd"] = self.proof["checker_cmd"]
             cov["theorems"] = self.proof["theorems"]
             cov["print_assumptions"] = self.proof["assumptions"]
+            if self.proof.get("extra_allowed_axioms"):
+                cov["extra_allowed_axioms"] = self.proof["extra_allowed_axioms"]
         cov["trusted_base"] = self.trusted
         cov["divergences"] = ndiv
         cov["monitor_failures"] = nmon
